@@ -2,6 +2,7 @@ package core
 
 import (
 	"go/types"
+	"strconv"
 	"strings"
 
 	"golang.org/x/tools/go/ssa"
@@ -323,3 +324,88 @@ func sameElement(a, b *VD) bool {
 	}
 	return a.Args[0].String() == b.Args[0].String()
 }
+
+// ReturnsNilWithNilError: g has results (..., T at idx, ..., error) and some return yields a nil T together
+// with a nil error (the "nothing, and no failure" return).
+func ReturnsNilWithNilError(g *ssa.Function, idx int) (*ssa.Return, bool) {
+	n := g.Signature.Results().Len()
+	if n < 2 || idx >= n-1 || !IsErrorType(g.Signature.Results().At(n-1).Type()) || len(g.Blocks) == 0 {
+		return nil, false
+	}
+	for _, ret := range ReturnsOf(g) {
+		if len(ret.Results) != n {
+			continue
+		}
+		var nilPreds []*ssa.BasicBlock
+		direct := false
+		for _, lf := range PhiLeaves(ret.Results[idx], ret) {
+			if IsNilConst(lf.V) {
+				if lf.Pred == nil {
+					direct = true
+				}
+				nilPreds = append(nilPreds, lf.Pred)
+			}
+		}
+		if len(nilPreds) == 0 {
+			continue
+		}
+		for _, lf := range PhiLeaves(ret.Results[n-1], ret) {
+			if !IsNilConst(lf.V) {
+				continue
+			}
+			if lf.Pred == nil || direct {
+				return ret, true
+			}
+			for _, pb := range nilPreds {
+				if pb == lf.Pred {
+					return ret, true
+				}
+			}
+		}
+	}
+	return nil, false
+}
+
+// NilNilDerefs finds dereferences, in fn, of the result of a call to a function of the program that can
+// return (nil, nil), where nothing establishes result != nil between the call and the use.
+func NilNilDerefs(ds *Describer, fn *ssa.Function) []NilDeref {
+	var out []NilDeref
+	EachInstr(fn, func(in ssa.Instruction) {
+		call, ok := in.(*ssa.Call)
+		if !ok {
+			return
+		}
+		g := call.Call.StaticCallee()
+		if g == nil || len(g.Blocks) == 0 {
+			return
+		}
+		n := g.Signature.Results().Len()
+		for idx := 0; idx < n-1; idx++ {
+			switch g.Signature.Results().At(idx).Type().Underlying().(type) {
+			case *types.Pointer, *types.Interface:
+			default:
+				continue
+			}
+			ret, can := ReturnsNilWithNilError(g, idx)
+			if !can {
+				continue
+			}
+			ex := ExtractOf(call, idx)
+			if ex == nil || ex.Referrers() == nil {
+				continue
+			}
+			for _, use := range *ex.Referrers() {
+				if !isDerefUse(ex, use) {
+					continue
+				}
+				if w := Unguarded(ds, fn, call, func(x ssa.Instruction) bool { return x == use }, NonNilGuard(ds, ex)); w != nil {
+					out = append(out, NilDeref{Value: ex, Use: use, Why: "is nil without an error when " + FnKey(g) + " takes its return at line " + itoa(g.Prog.Fset.Position(ret.Pos()).Line), Witness: w})
+					break
+				}
+			}
+		}
+	})
+	return out
+}
+
+func itoa(i int) string { return strconv.Itoa(i) }
